@@ -48,8 +48,9 @@ let print_qevs b evs =
 
 (* a layer over the scripted socket: [mk ()] gives a fresh instance as (events of construction, feed, send);
    a "|" token starts over on a fresh instance *)
+let cur_cap = ref (zi 70000)      (* size of the caller's receive buffer (op c:<cap>; H only) *)
 let layer_ops_init b mk ops =
-  let fresh () = let (e0, fd, sd) = mk () in print_evs b e0; (fd, sd) in
+  let fresh () = cur_cap := zi 70000; let (e0, fd, sd) = mk () in print_evs b e0; (fd, sd) in
   let inst = ref (fresh ()) in
   List.iter (fun op ->
     if op = "|" then begin Buffer.add_string b " |"; inst := fresh () end
@@ -60,6 +61,7 @@ let layer_ops_init b mk ops =
       | 'f' -> print_evs b (feedf (hex_to_list arg))
       | 's' -> print_evs b (sendf false (bufs_of arg))
       | 'r' -> print_evs b (sendf true (bufs_of arg))
+      | 'c' -> let c = int_of_string arg in cur_cap := zi (if c < 1 || c > 70000 then 70000 else c)
       | _ -> ()
     end) ops
 let layer_ops b mk ops = layer_ops_init b (fun () -> let (fd, sd) = mk () in ([], fd, sd)) ops
@@ -118,7 +120,7 @@ let () = read_lines (fun l ->
     layer_ops_init b (fun () ->
       let w = ref { inner = http_init; dead = Z0 } in
       ([],
-       (fun chunk -> let (w', e) = feed (http_body g) !w chunk in w := w'; e),
+       (fun chunk -> let (w', e) = http_feed !cur_cap g !w chunk in w := w'; e),
        (fun rel bufs -> let (s', e) = http_send !w.inner rel bufs in w := { !w with inner = s' }; e))) ops;
     print_endline (Buffer.contents b)
   | id :: _ -> print_endline (id ^ " ?")
